@@ -56,7 +56,34 @@ def join_text(rng, lines):
     return t
 
 
+def gen_perm_case(rng, entry=None):
+    """distinct lines, a few swaps (permutation differences) plus a few genuine edits, with
+    max_permutation_cases around the number of differing lines"""
+    n = rng.randint(3, 8)
+    exp = ['line %d %s' % (i, rng.choice(['a', 'b', 'total=100', 'x'])) for i in range(n)]
+    act = list(exp)
+    idx = list(range(n))
+    rng.shuffle(idx)
+    nsw = rng.choice([1, 1, 2])
+    for k in range(nsw):
+        if 2 * k + 1 < len(idx):
+            i, j = idx[2 * k], idx[2 * k + 1]
+            act[i], act[j] = act[j], act[i]
+    rest = idx[2 * nsw:]
+    nedit = rng.choice([0, 1, 1, 2])
+    for i in rest[:nedit]:
+        act[i] = act[i] + ' changed'
+    ndiff = sum(1 for a, e in zip(act, exp) if a != e)
+    opts = {'max_permutation_cases': max(1, ndiff + rng.choice([-2, -1, -1, 0, 0, 1]))}
+    if rng.random() < 0.2:
+        opts['rstrip'] = True
+    return {'entry': entry or rng.choice(['string', 'file', 'files']),
+            'actual': join_text(rng, act), 'expected': join_text(rng, exp), 'opts': opts}
+
+
 def gen_case(rng, entry=None):
+    if rng.random() < 0.12:
+        return gen_perm_case(rng, entry)
     exp = gen_lines(rng)
     act = list(exp)
     mode = rng.random()
